@@ -583,8 +583,8 @@ def gen_manifest():
     engines = {}
     for cid in all_ids():
         cfg = load_check(cid)
-        if cfg.get("disabled"):
-            continue
+        if cfg.get("disabled") or not cfg.get("ready"):
+            continue  # "ready": true is set by the lead once the check is reviewed and silent on the unchanged tree
         c = {
             "property_id": cid,
             "quick_cmd": "python3 check.py %s --tier quick" % cid,
@@ -630,7 +630,7 @@ def gen_manifest():
 
 
 def setup():
-    ids = [c for c in all_ids() if not load_check(c).get("disabled")]
+    ids = [c for c in all_ids() if not load_check(c).get("disabled") and load_check(c).get("ready")]
     os.environ["VERIF_SETUP_ALL"] = "1"
     failed = []
 
